@@ -131,6 +131,7 @@ func (c *Ctx) Begin(id CaseID, seq uint64) {
 	c.cur = id
 	c.seq = seq
 	c.res.Cases++
+	c.res.Counters["cases."+id.Family]++
 	c.res.LastSeq = seq
 	if c.progress != nil {
 		var b [160]byte
